@@ -42,9 +42,37 @@ def _spendables(ins):
     return [Tx.Spendable(v, b"\x51" + bytes([i % 256]), bytes([i + 1]) * 32, i) for i, v in enumerate(ins)]
 
 
+_SERVICES_DONE = []
+
+
+def _exercise_services():
+    """use pycoin's own service layer in this process (no network: the HTTP layer of the chain.so provider is replaced by a
+    canned reply; the other provider modules are imported): nothing it does may change what the conversions answer"""
+    if _SERVICES_DONE:
+        return
+    _SERVICES_DONE.append(1)
+    import importlib, io, json, pkgutil
+    import pycoin.services as SV
+    for m in pkgutil.iter_modules(SV.__path__):
+        try:
+            importlib.import_module("pycoin.services." + m.name)
+        except Exception:  # noqa: BLE001  (optional dependencies)
+            pass
+    try:
+        from pycoin.services import chain_so
+        reply = {"data": {"txs": [{"txid": "ab" * 32, "output_no": 0, "script_hex": "76a914" + "11" * 20 + "88ac", "value": "0.29000000"}]}}
+        chain_so.urlopen = lambda url: io.BytesIO(json.dumps(reply).encode("utf8"))
+        chain_so.ChainSoProvider("BTC").spendables_for_address("1BgGZ9tcN4rm9KBzDn7KprQz87SZ26SAMH")
+    except Exception:  # noqa: BLE001  (the provider's own behaviour is not what C13 speaks about)
+        pass
+
+
 def impl(op: str) -> str:
     a = op.split(" ")
     k = a[0]
+    if k == "services_then":
+        _exercise_services()
+        return impl(op.split(" ", 1)[1])
     try:
         if k == "split":
             return "ok " + show_list(split_with_remainder(int(a[1]), int(a[2])))
@@ -362,6 +390,8 @@ def oracle(op: str, out: str):
     """the property evaluated on the implementation alone"""
     a = op.split(" ")
     k = a[0]
+    if k == "services_then":
+        return oracle(op.split(" ", 1)[1], out)
     if k == "split" and out.startswith("ok"):
         t, c = int(a[1]), int(a[2])
         xs = parse_ints(out[3:])
@@ -574,6 +604,8 @@ def trivial(op: str) -> bool:
 
 def neighbours(op, rng):
     a = op.split(" ")
+    if a[0] == "services_then":
+        return
     if a[0] == "distribute":
         ins, outs, fee = parse_ints(a[1]), parse_ints(a[2]), int(a[3])
         for d in (-2, -1, 0, 1, 2):
@@ -701,6 +733,14 @@ def gen(ctx, emit):
             "|".join("%s=%s" % (hx(h), ";".join("%d:%s" % (v, hx(s)) for v, s in outs)) for h, outs in db.items()) or "~"))
 
     _gen2(ctx, emit)
+    # ---- last: the conversions once more AFTER the library's own service layer was used in this process (ambient state such as
+    # the thread's decimal context must not have been touched by it)
+    for v in (0, 1, 99999999, 100000001, 123456789, 987654321, 2099999999999999, 2100000000000000, 10 ** 15 + 1):
+        emit("services_then sat2btc %d" % v, "after-services")
+        emit("services_then sat2mbtc %d" % v, "after-services")
+    for txt in ("1.23456789", "0.00000001", "20999999.99999999", "1234.56789", "21000000"):
+        emit("services_then btc2sat_s " + hx(txt.encode()), "after-services")
+        emit("services_then mbtc2sat_s " + hx(txt.encode()), "after-services")
 
 
 SCRIPTS = [b"\x76\xa9\x14" + bytes([7]) * 20 + b"\x88\xac", b"\xa9\x14" + bytes([8]) * 20 + b"\x87",
